@@ -49,8 +49,8 @@ func init() {
 				Old: "stateEventHdrSize + 84, Field: \"state->pol_rc\"", New: "stateEventHdrSize + 88, Field: \"state->pol_rc\"", Expect: "C13.state/offset/stateOffPolResult"},
 			{Name: "flags offset stale after a C-side insertion", File: "felix/bpf/polprog/pol_prog_builder.go",
 				Old: "stateEventHdrSize + 360, Field: \"state->flags\"", New: "stateEventHdrSize + 352, Field: \"state->flags\"", Expect: "C13.state/offset/stateOffFlags"},
-			{Name: "Go mirror loses a padding field", File: "felix/bpf/state/map.go",
-				Old: "\tihl                 uint16\n\t_                   uint16\n", New: "\tihl                 uint16\n", Expect: "C13.mirror/"},
+			{Name: "Go mirror loses one word of the tunnel address", File: "felix/bpf/state/map.go",
+				Old: "\tTunIP3              uint32\n", New: "", Expect: "C13.mirror/"},
 			{Name: "conntrack value size constant stale", File: "felix/bpf/conntrack/v4/map.go",
 				Old: "\tValueSize:    ValueSize,\n\tMaxEntries:   MaxEntries,\n\tName:         \"cali_v4_ct\",", New: "\tValueSize:    ValueSize - 8,\n\tMaxEntries:   MaxEntries,\n\tName:         \"cali_v4_ct\",", Expect: "C13.maps/cali_v4_ct4/value"},
 			{Name: "F13 re-introduced: frontend affinity key takes one byte of saddr", File: "felix/bpf/nat/maps.go",
